@@ -92,7 +92,11 @@ def binding : Trace.Binding proto :=
       | _, _ => none
     retOf := fun l => match l with
       | .done a b => some [a, b]
-      | _ => none }
+      | _ => none
+    -- declared orders of async_request.h
+    reqOrder := fun l => match l with
+      | .ruCas => 4 | .urLoad => 2 | .teCas _ => 4 | .tePublish => 3 | .guCas => 4 | .guReset _ => 3
+      | _ => 0 }
 
 def init : State proto := initState proto L.idle (fun f => if f = 1 then movedFrom else 0)
 
